@@ -52,7 +52,7 @@ type Case struct {
 }
 
 type Out struct {
-	ID     int   `json:"id"`
+	ID     int    `json:"id"`
 	Out    string `json:"out"`
 	Gets   []any  `json:"gets"`
 	Bound  any    `json:"bound"`
